@@ -125,6 +125,107 @@ theorem string_cells_never_freed_while_held (ops : List Op) (s : St) (h : run St
 example : ∃ s cell, run St.init [.newstr 0 "a", .newstr 1 "a", .fill 2 3 0, .free 0, .free 1, .free 2] = .ok s ∧
     s.heap[0]? = some cell ∧ cell.kind = .str ∧ cell.live = false := ⟨_, _, rfl, rfl, rfl, rfl⟩
 
+/-! ### a string block is modified in place only by its single holder
+
+The string-building primitives read the counter to decide whether they may reuse the block: EXTEND_SVALUE_STRING and
+SVALUE_STRING_JOIN call extend_string() on the block itself, unlink_string_svalue lets the caller overwrite its
+bytes (s[i] = c, s[i..j] = ...) or free it.  The decision expressions are regenerated from the source
+(`NV.Gen.C06.extendInPlace`, `joinInPlace`, `unlinkCopies`); the obligations below hold only if "in place" implies
+"counter = 1 exactly" - a counter of 0 is a string with more than 2^SW - 1 holders (immortal), not a private one. -/
+
+/-- obligation on the regenerated EXTEND_SVALUE_STRING condition -/
+theorem extendInPlace_sole (m : Bool) (r : Nat) (h : NV.Gen.C06.extendInPlace m r = true) : m = true ∧ r = 1 := by
+  unfold NV.Gen.C06.extendInPlace at h
+  cases m <;> simp at h ⊢ <;> omega
+
+/-- obligation on the regenerated SVALUE_STRING_JOIN condition -/
+theorem joinInPlace_sole (m : Bool) (r : Nat) (h : NV.Gen.C06.joinInPlace m r = true) : m = true ∧ r = 1 := by
+  unfold NV.Gen.C06.joinInPlace at h
+  cases m <;> simp at h ⊢ <;> omega
+
+/-- obligation on the regenerated unlink_string_svalue condition: no copy is made only for counter 1 -/
+theorem unlink_inplace_sole (r : Nat) (h : NV.Gen.C06.unlinkCopies r = false) : r = 1 := by
+  unfold NV.Gen.C06.unlinkCopies at h
+  simp at h
+  omega
+
+/-- the block the operation `op` modifies in place in state s (the `inplace` marker of its micro program), if any -/
+def inPlaceTarget (s : St) (op : Op) : Option Nat :=
+  match compile s op with
+  | some prog => prog.findSome? (fun i => match i with | .inplace c => some c | _ => none)
+  | none => none
+
+/-- a live string cell whose counter is exactly 1 has exactly one holder - after ANY history (saturation included) -/
+theorem sole_of_ref_one (ops : List Op) (s : St) (h : run St.init ops = .ok s) (c : Nat) (cell : Cell)
+    (hc : s.heap[c]? = some cell) (hk : cell.kind.isStr = true) (hl : cell.live = true) (hr : cell.ref = 1) :
+    H s c = 1 := by
+  rcases (string_cells_never_freed_while_held ops s h c cell hc hk).2 hl with h0 | ⟨h1, _, _⟩
+  · omega
+  · omega
+
+/-- **no_inplace_modification_while_shared.**  After any history of operations (any number of holders, saturated
+    counters included), whenever `v[d] += n`, `v[d] += v[t]`, `v[d][i] = c` or `v[d][i..j] = w` decides to modify the
+    block of v[d] in place, that block has exactly one holder (v[d] itself): nobody else can observe the change. -/
+theorem no_inplace_modification_while_shared (ops : List Op) (s : St) (h : run St.init ops = .ok s)
+    (d : Nat) (c : Nat) (cell : Cell) (hs : strSlot s d = some (c, cell)) :
+    (∀ w, Mi.inplace c ∈ extendProg NV.Gen.C06.extendInPlace c cell cell.ref d w → H s c = 1) ∧
+    (∀ w, Mi.inplace c ∈ unlinkStoreProg c cell d w → H s c = 1) ∧
+    (NV.Gen.C06.joinInPlace (cell.kind == .mstr) cell.ref = true → H s c = 1) := by
+  have hcell : s.heap[c]? = some cell ∧ cell.live = true ∧ cell.kind.isStr = true := by
+    unfold strSlot slotCell at hs
+    split at hs
+    · rename_i c' cell' hsc
+      split at hs
+      · rename_i hlk
+        cases hs
+        split at hsc
+        · split at hsc
+          · rename_i hh; cases hsc
+            simp at hlk
+            exact ⟨hh, hlk.1, hlk.2⟩
+          · cases hsc
+        · cases hsc
+      · cases hs
+    · cases hs
+  rcases hcell with ⟨hc, hl, hk⟩
+  refine ⟨?_, ?_, ?_⟩
+  · intro w hm
+    unfold extendProg replaceStr at hm
+    by_cases hd : NV.Gen.C06.extendInPlace (cell.kind == .mstr) cell.ref = true
+    · exact sole_of_ref_one ops s h c cell hc hk hl (extendInPlace_sole _ _ hd).2
+    · simp [hd] at hm
+  · intro w hm
+    unfold unlinkStoreProg replaceStr at hm
+    by_cases hd : (cell.kind == .mstr && !(NV.Gen.C06.unlinkCopies cell.ref)) = true
+    · have : NV.Gen.C06.unlinkCopies cell.ref = false := by
+        have h2 := (Bool.and_eq_true _ _ ▸ hd).2
+        simpa using h2
+      exact sole_of_ref_one ops s h c cell hc hk hl (unlink_inplace_sole _ this)
+    · simp [hd] at hm
+  · intro hd
+    exact sole_of_ref_one ops s h c cell hc hk hl (joinInPlace_sole _ _ hd).2
+
+/-- `v[d] = v[s] + n` works on a pushed copy (one more holder): it never modifies the block of v[s] in place -/
+theorem add_never_inplace (k : Kind) (hk : k.isStr = true) (r : Nat) :
+    NV.Gen.C06.extendInPlace (k == .mstr) (incRef k r 1) = false := by
+  cases hx : NV.Gen.C06.extendInPlace (k == .mstr) (incRef k r 1) with
+  | false => rfl
+  | true =>
+    have := (extendInPlace_sole _ _ hx).2
+    unfold incRef at this
+    rw [if_pos hk] at this
+    split at this
+    · omega
+    · split at this <;> omega
+
+/-- non-vacuity: the single holder of a run-time string appends in place; with a second holder a copy is made and the
+    other holder keeps its text -/
+example : inPlaceTarget (match run St.init [.newmstr 0 "ab"] with | .ok s => s | .error _ => St.init) (.sappend 0 "7")
+    = some 0 := by decide
+example : ∃ s c0 c1, run St.init [.newmstr 0 "ab", .assign 1 0, .schar 1 0 "z"] = .ok s ∧
+    strSlot s 0 = some c0 ∧ c0.2.text = "ab" ∧ strSlot s 1 = some c1 ∧ c1.2.text = "zb" :=
+  ⟨_, _, _, rfl, rfl, by decide, rfl, by decide⟩
+
 /-- a fresh string satisfies the invariant -/
 example : RefOK .str 1 1 := RefOK_new .str
 
